@@ -120,7 +120,7 @@ def run_case(case, obs):
             obs.violate("two_stage_rate_vs_energy", f"returned rate {r!r} A inconsistent with charge gained {c1 - c0!r}", **wit)
         if p > 0 and c0 < cap * (1 - 1e-12):
             obs.nontrivial(f"{obs.case_hash}:{i}")
-        if p == 0 and (r != 0 or c1 != c0):
+        if p == 0 and (abs(r) > 1e-12 or abs(c1 - c0) > 1e-12 * cap):
             obs.violate("zero_pilot_delivers", f"pilot 0 gave rate {r!r}, charge {c0!r}->{c1!r}", **wit)
         # cross-check of the reference itself against numerical integration (sampled)
         stiff = (pmax / cap / (1 - ts)) * (Tm / 60.0) / 6000 > 0.5  # explicit RK4 with 6000 steps is unstable beyond this
@@ -147,14 +147,18 @@ def run_case(case, obs):
             rc = cp.charge(p, V, Tm)
             cc = battery_state(cp)[0]
             obs.ev("shallow_copies_charged")
-            if not (abs(cc - ref) <= tol) or battery_state(src)[0] != c0:
-                obs.violate("shallow_copy_not_independent", f"copy.copy(battery).charge(): copy holds {cc!r} (law {ref!r}), the original went from "
+            # judged: the battery that WAS charged (the copy) follows the law and its returned rate matches its own gain; whether the
+            # object it was copied from stays untouched is Python's shallow-copy semantics, recorded only
+            if not (abs(cc - ref) <= tol) or not (abs(rc * V / 1000.0 * Tm / 60.0 - (cc - c0)) <= tol):
+                obs.violate("shallow_copy_breaks_the_law", f"copy.copy(battery).charge(): copy holds {cc!r} (law {ref!r}), returned rate {rc!r}; the original went from "
                             f"{c0!r} to {battery_state(src)[0]!r}", **wit)
+            if battery_state(src)[0] != c0:
+                obs.ev("shallow_copies_sharing_state_with_the_original")
             src_i = Battery(cap, c0, pmax)
             cpi = _copy.copy(src_i)
             cpi.charge(p, V, Tm)
-            if not (abs(battery_state(cpi)[0] - ec) <= tol) or battery_state(src_i)[0] != c0:
-                obs.violate("shallow_copy_not_independent", "ideal battery: copy.copy() shares state with the original", **wit)
+            if not (abs(battery_state(cpi)[0] - ec) <= tol):
+                obs.violate("shallow_copy_breaks_the_law", f"ideal battery: a copy.copy() charged from {c0!r} holds {battery_state(cpi)[0]!r}, law {ec!r}", **wit)
         # ---------------- relations on the real code
         b1 = _mk(cap, c0, pmax, ts)
         b1.charge(p, V, Tm / 2)
@@ -174,7 +178,7 @@ def run_case(case, obs):
         # ---------------- legacy stepwise: law-independent relations only
         bs = _mk(cap, c0, pmax, ts, "stepwise")
         r0 = bs.charge(0, V, Tm)
-        if r0 != 0 or battery_state(bs)[0] != c0:
+        if abs(r0) > 1e-12 or abs(battery_state(bs)[0] - c0) > 1e-12 * cap:
             obs.violate("zero_pilot_delivers", f"stepwise: pilot 0 gave rate {r0!r}", **wit)
         rs = bs.charge(p, V, Tm)
         cs = battery_state(bs)[0]
@@ -224,22 +228,22 @@ def _reset_checks(obs, b, c0, cap, wit):
     obs.ev("reset_checks")
     b.reset()
     c, _, _, pw = battery_state(b)
-    if c != c0 or pw != 0:
+    if abs(c - c0) > 1e-12 * cap or abs(pw) > 1e-12:
         obs.violate("reset_not_restoring", f"after reset: charge {c!r} (initial {c0!r}), power {pw!r}", **wit)
     try:
         b.reset(cap * 1.5 + 1)
         obs.violate("reset_above_capacity_accepted", "reset(init_charge > capacity) did not raise", **wit)
-    except ValueError:
-        pass
+    except Exception:
+        pass  # refused; the error class is the library's choice
     b.reset(c0 / 2)
-    if battery_state(b)[0] != c0 / 2:
+    if abs(battery_state(b)[0] - c0 / 2) > 1e-12 * cap:
         obs.violate("reset_value", f"reset({c0 / 2!r}) left charge {battery_state(b)[0]!r}", **wit)
     # reset to an explicit charge, use the battery, then a plain reset(): the construction-time initial state comes back
     b.charge(16, 208, 5)
     b.reset()
     c, _, _, pw = battery_state(b)
     obs.ev("reset_after_explicit_reset_checks")
-    if c != c0 or pw != 0:
+    if abs(c - c0) > 1e-12 * cap or abs(pw) > 1e-12:
         obs.violate("reset_after_explicit_reset_not_restoring", f"reset(x); charge; reset(): charge {c!r} (initial {c0!r}), power {pw!r}", **wit)
 
 
